@@ -413,7 +413,9 @@ charLoop:
 						continue charLoop
 					}
 
-					l.advanceChar()
+					if _, ok := l.advanceChar(); !ok {
+						return l.lexError("unterminated comment group, missing )")
+					}
 				}
 			}
 			return l.token(token.LPAREN)
